@@ -122,6 +122,16 @@ CHECKS = {
         note="ill-sorted equalities (True = 1) are outside the domain; trusted base: the evaluator and S-expression "
              "reader in mc/c18.py",
         technique="bounded-exhaustive enumeration of formula trees x valuations against an independent evaluator"),
+    "C11": dict(
+        level="fault_enumeration", engine="E2+E7+E8", ref="DESIGN.md section 4 C11",
+        text="for 3 synthesized multi-block contracts x option sets: the log written by an optimization run is replayed "
+             "and the output must be byte-identical; then every single edit of the log from a menu (delete, duplicate, "
+             "transpose, substitute and insert own/stack/foreign/unknown ids at every position, drop/empty/retarget/"
+             "add entries), and pairs of edits in the thorough tier, is replayed through -optimize-from-log and must "
+             "be rejected or produce blocks equivalent to the input on the reference EVM",
+        note="the whole command-line entry is driven in-process per option set; trusted base mc/evm_ref.py",
+        technique="exhaustive enumeration of single (and bounded double) tamperings of a history artefact, each "
+                  "replayed on the implementation"),
 }
 
 NOT_YET = "check not built yet in this session (planned in DESIGN.md section 4); nothing is claimed for it"
